@@ -174,17 +174,28 @@ impl Decoder {
     }
 
     /// Decodes the headers found in the given buffer.
-    pub fn decode<F>(
+    #[allow(dead_code)]
+    pub fn decode<F>(&mut self, src: &mut Cursor<&mut BytesMut>, f: F) -> Result<(), DecoderError>
+    where
+        F: FnMut(Header) -> ControlFlow<()>,
+    {
+        self.decode_fragment(src, true, f)
+    }
+
+    /// Decodes the headers found in one fragment of a header block.
+    ///
+    /// `can_resize` tells whether a dynamic table size update is still
+    /// allowed, i.e. no field of this header block has been decoded yet.
+    pub fn decode_fragment<F>(
         &mut self,
         src: &mut Cursor<&mut BytesMut>,
+        mut can_resize: bool,
         mut f: F,
     ) -> Result<(), DecoderError>
     where
         F: FnMut(Header) -> ControlFlow<()>,
     {
         use self::Representation::*;
-
-        let mut can_resize = true;
 
         if let Some(size) = self.max_size_update.take() {
             self.last_max_update = size;
